@@ -97,7 +97,8 @@ namespace xsimd
         template <class A, class T>
         XSIMD_INLINE batch_bool<T, A> is_even(batch<T, A> const& self, requires_arch<generic>) noexcept
         {
-            return is_flint(self * T(0.5));
+            // self * 0.5 underflows to zero for the smallest denormal, which is not an integer
+            return is_flint(self) && is_flint(self * T(0.5));
         }
 
         // is_flint
